@@ -120,7 +120,7 @@ def ep_obj(b):
 
 
 # ---- assumed / specification-level contracts of the callees (ghost bookkeeping)
-c = contract(EP, 'ExpressionParser._atom', serves=[], modular=True, name='ExpressionParser._atom (assumed ghost contract)')
+c = contract(EP, 'ExpressionParser._atom', serves=[], modular=True, group='precedence', name='ExpressionParser._atom (ghost contract of the precedence proof; body verified in c16_lexer.py)')
 c.returns('bool')
 def _atom_effect(I, env):
     old = I.ghost['pos']
@@ -146,7 +146,7 @@ def _do_op_effect(I, env):
 c.effect(_do_op_effect)
 
 # ---- the function under verification (also used modularly for its recursive call)
-c = contract(EP, 'ExpressionParser._expression', serves=['C02'], modular=True)
+c = contract(EP, 'ExpressionParser._expression', serves=['C02'], modular=True, uses=('precedence',))
 c.returns('bool')
 def _setup(b, case):
     ep = ep_obj(b)
@@ -256,6 +256,14 @@ c.cases([{'type': t} for t in ('COMPARE', 'MARK', 'NAME', 'AND', 'OR', 'NOT', 'N
 c.requires('compare-tokens-are-comparison-operators',
            "tok._token_type is not TokenTypes.COMPARE or tok._content == '==' or tok._content == '!=' or tok._content == '<' "
            "or tok._content == '<=' or tok._content == '>' or tok._content == '>='")
+# lexer postconditions: a keyword token spells its keyword; names, numbers, registers and EOF spell no operator
+c.requires('keyword-tokens-spell-their-keyword',
+           "(tok._token_type is not TokenTypes.AND or tok._content == 'and') and (tok._token_type is not TokenTypes.OR or tok._content == 'or') "
+           "and (tok._token_type is not TokenTypes.NOT or tok._content == 'not')")
+c.requires('word-tokens-spell-no-operator',
+           "tok._token_type is TokenTypes.MARK or tok._token_type is TokenTypes.COMPARE or tok._token_type is TokenTypes.LITERAL_STRING "
+           "or tok._token_type is TokenTypes.AND or tok._token_type is TokenTypes.OR or tok._token_type is TokenTypes.NOT "
+           "or not any(tok._content == op for op in ('not', 'or', 'and', '==', '<=', '>=', '!=', '<', '>', '+', '-', '*', '/', '%', '^'))")
 c.ensures('prec-range', 'result[1] == -1 or 1 <= result[1] <= 7')
 c.ensures('binary-operators-have-prec>=2', 'result[0] and result[1] >= 0 ==> result[1] >= 2')
 c.ensures('prec-7-is-the-right-associative-binary-operator', 'result[1] == 7 ==> result[0] and result[2]')
